@@ -272,6 +272,8 @@ def build_weights(desc: dict, wdesc: dict) -> Any:
         if desc.get("multiindex") == "feature" and len(fnames) >= 2:
             da = da.stack({desc.get("mi_fname", "fmi"): fnames})
         out.append(da)
+    if wdesc.get("chunked"):
+        out = [o.chunk() for o in out]          # the weights themselves are dask-backed
     if container == "da":
         return out[0]
     if container == "list":
